@@ -105,7 +105,12 @@ def units(tier):
     ABS = ["CXX2C_ABS_LIBM", "CXX2C_ABS_ARITH"]
     U("rel.toMatrix", "h_rel_toMatrix", clause="toMatrix33() and toMatrix44() hold the same rotation block (two textual copies of the Shoemake formulas), all 24 orders; sin/cos and arithmetic abstract",
       fns=[ALIASES["toMatrix33"], ALIASES["toMatrix44"]], mode="ABS", defines=ABS, timeout=900)
-    # rel.extract (extract(Matrix33) vs extract(Matrix44)): two copies of rotate() + a 4x4 product; both back ends exceed 15 min - not claimed
+    # extract(Matrix33) vs extract(Matrix44): two copies of rotate() + a 4x4 product; with a symbolic order both back ends exceed 15 min,
+    # with the order a constant (one unit per order, enum values cut from the header) the axis indices fold
+    for oname, oval in sorted(order_table().items()):
+        us.append(Unit("c11.rel.extract_" + oname, H, "h_rel_extract", includes=[GEN], functions=[ALIASES["extract33"], ALIASES["extract44"]], backend=os.environ.get("C11_BE", "kissat"), mode="ABS",
+                       defines=ABS + ["ORDC=" + oval], no_checks=True, timeout=600, replay=rp, cbmc_flags=["--unwind", "6", "--no-signed-overflow-check", "--object-bits", "10"],
+                       clause="order %s: extract(Matrix33) and extract(Matrix44) give identical angles for the same rotation block (sin/cos/atan2/sqrt and arithmetic abstract)" % oname))
     return us + ring_units(tier)
 
 
